@@ -426,7 +426,7 @@ func c12SharedProperty(c *wk.Ctx) {
 }
 
 func runC12(c *wk.Ctx) {
-	c.Meta("rule", "per case: one generated shape built twice (a 'used' and a 'fresh' instance, each with its own self / twin / incompatible-mutant schema arguments); a probe set (valid inputs in random representations, perturbed and hostile inputs for Unserialize; natives for Validate/Serialize; data and schema arguments for ValidateCompatibility) is first evaluated on the fresh instance. The used instance then goes through a random history of 1..30 calls (accepted, rejected and default-filling ones, failing schema comparisons), with a deep snapshot of every argument before and after, and with every container reachable from every returned value overwritten in place. Afterwards each probe is evaluated 16 times on the used instance. Oracle: the argument snapshot is unchanged by the call and by scrambling the result; all 16 evaluations agree; they equal the fresh instance's outcome; SelfSerialize of the used scope equals that of the fresh one. distinct = hash(shape, history); non-trivial = history length >= 2")
+	c.Meta("rule", "per case: one generated shape built twice (a 'used' and a 'fresh' instance, each with its own self / twin / incompatible-mutant schema arguments); a probe set (valid inputs in random representations, perturbed and hostile inputs for Unserialize; natives for Validate/Serialize; data and schema arguments for ValidateCompatibility) is first evaluated on the fresh instance. The used instance then goes through a random history of 1..30 calls (accepted, rejected and default-filling ones, failing schema comparisons), with a deep snapshot of every argument before and after, and with every container reachable from every returned value overwritten in place. Afterwards each probe is evaluated 16 times on the used instance. Oracle: the argument snapshot is unchanged by the call and by scrambling the result; all 16 evaluations agree; they equal the fresh instance's outcome; SelfSerialize of the used scope equals that of the fresh one. distinct = hash(shape, history); non-trivial = history length >= 2 Directed: schema comparison of enums in which only some values carry display names (one disagreeing / one missing name), 300 evaluations per pair.")
 	c.Meta("assumptions", []string{"GetDefaults() is deliberately not compared (the SDK extends decoded sub-object defaults in place, which changes that accessor but neither the self-description nor behaviour)",
 		"inputs whose map keys collide after normalisation are excluded from the determinism verdict"})
 	c.Floor("probe_evaluations", 20000)
